@@ -94,6 +94,8 @@ mixed bd(string kind) {
   case "imparr": for (i = 1; i < 22; i++) s = implode(explode(repeat_string("ab ", 1 << i), " "), ",,,,"); return s;
   case "strslice": for (i = 0; i < 22; i++) s = s[0..] + s[1..] + "x"; return s;
   case "mapmul": for (i = 0; i < 300000; i++) { m[i] = i; if (!(i % 4096)) m = m + m; } return m;
+  case "savevar": for (i = 0; i < 22; i++) { a = ({ s, s, s }); s = save_variable(a); } return s;
+  case "savevar2": for (i = 1; i < 22; i++) s = save_variable(allocate(1 << i)); return s;
   case "keys": for (i = 0; i < 300000; i++) { m[i] = i; if (!(i % 64)) a = keys(m) + values(m); } return a;
   }
   return 0;
